@@ -1,2 +1,284 @@
-//! C15 workload (under construction).
-fn main() {}
+//! C15 — limb-slice multiply/accumulate/add/subtract/shift/compare kernels of
+//! `ruint::algorithms` vs BigUint. Carry and borrow words are judged by
+//! conservation (result + word * 2^(64 N) == exact value), not by a formula.
+
+use num_bigint::{BigInt, BigUint};
+use num_traits::{ToPrimitive, Zero};
+use ruint::algorithms as alg;
+use std::cmp::Ordering;
+use vmon::{an, au, big, gen, rng::Rng, Arg, Mon};
+
+pub fn dispatch(m: &mut Mon, _bits: usize, op: &str, a: &[Arg]) {
+    exec(m, op, a)
+}
+
+fn nonzero_limbs(a: &[Arg]) -> usize {
+    a.iter()
+        .map(|x| match x {
+            Arg::U(v) => v.iter().filter(|&&l| l != 0).count(),
+            Arg::N(v) => usize::from(*v != 0),
+            _ => 0,
+        })
+        .sum()
+}
+
+fn exec(m: &mut Mon, op: &str, a: &[Arg]) {
+    m.nontrivial(nonzero_limbs(a) >= 2);
+    match op {
+        "addmul" => {
+            let (acc, x, y) = (a[0].u().to_vec(), a[1].u(), a[2].u());
+            let exact = big::big(&acc) + big::big(x) * big::big(y);
+            let n = acc.len();
+            let e_flag = !big::fits(&exact, 64 * n);
+            let e_val = big::wrap(&exact, 64 * n);
+            let mut out = acc.clone();
+            if let Some(f) = m.must(|| alg::addmul(&mut out, x, y)) {
+                m.obs(|| format!("acc'={} overflow={}", big::hex(&out), f));
+                m.eq("addmul.value", &out, &e_val);
+                m.eq("addmul.flag", &f, &e_flag);
+            }
+        }
+        "addmul_n" => {
+            let (acc, x, y) = (a[0].u().to_vec(), a[1].u(), a[2].u());
+            let exact = big::big(&acc) + big::big(x) * big::big(y);
+            let e_val = big::wrap(&exact, 64 * acc.len());
+            let mut out = acc.clone();
+            if m.must(|| alg::addmul_n(&mut out, x, y)).is_some() {
+                m.eq("addmul_n.value", &out, &e_val);
+            }
+        }
+        "mul_nx1" => {
+            let (acc, k) = (a[0].u().to_vec(), a[1].n() as u64);
+            let exact = big::big(&acc) * BigUint::from(k);
+            let n = acc.len();
+            let mut out = acc.clone();
+            if let Some(c) = m.must(|| alg::mul_nx1(&mut out, k)) {
+                m.eq("mul_nx1.value", &out, &big::wrap(&exact, 64 * n));
+                m.eq("mul_nx1.carry", &BigUint::from(c), &(&exact >> (64 * n)));
+            }
+        }
+        "addmul_nx1" => {
+            let (acc, x, k) = (a[0].u().to_vec(), a[1].u(), a[2].n() as u64);
+            let exact = big::big(&acc) + big::big(x) * BigUint::from(k);
+            let n = acc.len();
+            let mut out = acc.clone();
+            if let Some(c) = m.must(|| alg::addmul_nx1(&mut out, x, k)) {
+                m.eq("addmul_nx1.value", &out, &big::wrap(&exact, 64 * n));
+                m.eq("addmul_nx1.carry", &BigUint::from(c), &(&exact >> (64 * n)));
+            }
+        }
+        "submul_nx1" => {
+            // lhs' = lhs - a*b + borrow * 2^(64 N), 0 <= lhs' < 2^(64 N)
+            let (acc, x, k) = (a[0].u().to_vec(), a[1].u(), a[2].n() as u64);
+            let n = acc.len();
+            let exact = BigInt::from(big::big(&acc)) - BigInt::from(big::big(x) * BigUint::from(k));
+            let mut out = acc.clone();
+            if let Some(b) = m.must(|| alg::submul_nx1(&mut out, x, k)) {
+                let back = BigInt::from(big::big(&out)) - (BigInt::from(b) << (64 * n));
+                m.check(back == exact, "submul_nx1.conservation", || format!("lhs' - borrow*2^(64N) = {exact}"), || {
+                    format!("lhs'={} borrow={b:#x}", big::hex(&out))
+                });
+            }
+        }
+        "add_nx1" => {
+            let (acc, k) = (a[0].u().to_vec(), a[1].n() as u64);
+            let exact = big::big(&acc) + BigUint::from(k);
+            let n = acc.len();
+            let mut out = acc.clone();
+            if let Some(c) = m.must(|| alg::add_nx1(&mut out, k)) {
+                m.eq("add_nx1.value", &out, &big::wrap(&exact, 64 * n));
+                m.eq("add_nx1.carry", &BigUint::from(c), &(&exact >> (64 * n)));
+            }
+        }
+        "adc_n" => {
+            let (acc, x, c) = (a[0].u().to_vec(), a[1].u(), a[2].n() as u64);
+            let exact = big::big(&acc) + big::big(x) + BigUint::from(c);
+            let n = acc.len();
+            let mut out = acc.clone();
+            if let Some(co) = m.must(|| alg::adc_n(&mut out, x, c)) {
+                m.eq("adc_n.value", &out, &big::wrap(&exact, 64 * n));
+                m.eq("adc_n.carry", &BigUint::from(co), &(&exact >> (64 * n)));
+            }
+        }
+        "sbb_n" => {
+            let (acc, x, b) = (a[0].u().to_vec(), a[1].u(), a[2].n() as u64);
+            let n = acc.len();
+            let exact = BigInt::from(big::big(&acc)) - BigInt::from(big::big(x)) - BigInt::from(b);
+            let mut out = acc.clone();
+            if let Some(bo) = m.must(|| alg::sbb_n(&mut out, x, b)) {
+                let back = BigInt::from(big::big(&out)) - (BigInt::from(bo) << (64 * n));
+                m.check(back == exact, "sbb_n.conservation", || format!("lhs' - borrow*2^(64N) = {exact}"), || {
+                    format!("lhs'={} borrow={bo:#x}", big::hex(&out))
+                });
+            }
+        }
+        "adc" => {
+            let (x, y, c) = (a[0].n() as u64, a[1].n() as u64, a[2].n() as u64);
+            let exact = u128::from(x) + u128::from(y) + u128::from(c);
+            if let Some(v) = m.must(|| alg::adc(x, y, c)) {
+                m.eq("adc", &v, &(exact as u64, (exact >> 64) as u64));
+            }
+        }
+        "sbb" => {
+            let (x, y, b) = (a[0].n() as u64, a[1].n() as u64, a[2].n() as u64);
+            let exact = i128::from(x) - i128::from(y) - i128::from(b);
+            if let Some((v, bo)) = m.must(|| alg::sbb(x, y, b)) {
+                let back = i128::from(v) - (i128::from(bo) << 64);
+                m.check(back == exact, "sbb.conservation", || format!("{exact}"), || format!("value={v:#x} borrow={bo}"));
+            }
+        }
+        "carrying_add" => {
+            let (x, y, c) = (a[0].n() as u64, a[1].n() as u64, a[2].n() != 0);
+            let exact = u128::from(x) + u128::from(y) + u128::from(c);
+            if let Some(v) = m.must(|| alg::carrying_add(x, y, c)) {
+                m.eq("carrying_add", &v, &(exact as u64, exact >> 64 != 0));
+            }
+        }
+        "borrowing_sub" => {
+            let (x, y, b) = (a[0].n() as u64, a[1].n() as u64, a[2].n() != 0);
+            let exact = i128::from(x) - i128::from(y) - i128::from(b);
+            if let Some(v) = m.must(|| alg::borrowing_sub(x, y, b)) {
+                m.eq("borrowing_sub", &v, &(exact as u64, exact < 0));
+            }
+        }
+        "shift_left_small" => {
+            let (v0, s) = (a[0].u().to_vec(), a[1].us());
+            let n = v0.len();
+            let exact = big::big(&v0) << s;
+            let mut out = v0.clone();
+            if let Some(o) = m.must(|| alg::shift_left_small(&mut out, s)) {
+                m.eq("shift_left_small.value", &out, &big::wrap(&exact, 64 * n));
+                m.eq("shift_left_small.out", &BigUint::from(o), &(&exact >> (64 * n)));
+            }
+        }
+        "shift_right_small" => {
+            // bits shifted out are returned left-aligned in the returned word
+            let (v0, s) = (a[0].u().to_vec(), a[1].us());
+            let n = v0.len();
+            let wide = big::big(&v0) << 64usize; // one extra low limb to catch the bits
+            let shifted = &wide >> s;
+            let mut out = v0.clone();
+            if let Some(o) = m.must(|| alg::shift_right_small(&mut out, s)) {
+                let e_val = big::limbs(&(&shifted >> 64usize), n);
+                let e_out = (&shifted % big::p2(64)).to_u64().unwrap();
+                m.eq("shift_right_small.value", &out, &e_val);
+                m.eq("shift_right_small.out", &o, &e_out);
+            }
+        }
+        "cmp" => {
+            let (x, y) = (a[0].u(), a[1].u());
+            let e: Ordering = big::big(x).cmp(&big::big(y));
+            if let Some(v) = m.must(|| alg::cmp(x, y)) {
+                m.eq("cmp", &v, &e);
+            }
+        }
+        _ => panic!("harness: unknown op {op}"),
+    }
+    let _ = BigUint::zero();
+}
+
+fn word(r: &mut Rng) -> u64 {
+    gen::alpha_limb(r)
+}
+
+fn workload(m: &mut Mon) {
+    // ---- addmul: all accumulator / operand lengths 0..=10 independently
+    let mut r = m.stream("c15.addmul", 0);
+    let reps = m.iters(14);
+    for ln in 0..=10usize {
+        for la in 0..=10usize {
+            for lb in 0..=10usize {
+                if !m.keep() {
+                    continue;
+                }
+                for k in 0..reps {
+                    let acc = if k % 3 == 0 { vec![u64::MAX; ln] } else { gen::slice(&mut r, ln) };
+                    let x = gen::slice(&mut r, la);
+                    let y = gen::slice(&mut r, lb);
+                    m.case("addmul", 64 * ln, vec![au(&acc), au(&x), au(&y)]);
+                }
+            }
+        }
+        if m.time_up() {
+            break;
+        }
+    }
+    if !m.is_light() {
+        m.mark_exhaustive("every (accumulator, a, b) length combination in 0..=10 ^3 for addmul (contents sampled)");
+    }
+    // ---- equal-length kernels, lengths 0..=12
+    let mut r = m.stream("c15.equal", 0);
+    let reps = m.iters(1500);
+    for n in 0..=12usize {
+        for i in 0..reps {
+            if i % 512 == 0 && m.time_up() {
+                break;
+            }
+            if !m.keep() {
+                continue;
+            }
+            let acc = gen::slice(&mut r, n);
+            let x = gen::slice(&mut r, n);
+            let y = gen::slice(&mut r, n);
+            let k = word(&mut r);
+            let cin = match r.below(4) {
+                0 => 0,
+                1 | 2 => 1,
+                _ => word(&mut r),
+            };
+            m.case("addmul_n", 64 * n, vec![au(&acc), au(&x), au(&y)]);
+            m.case("mul_nx1", 64 * n, vec![au(&acc), Arg::N(k.into())]);
+            m.case("addmul_nx1", 64 * n, vec![au(&acc), au(&x), Arg::N(k.into())]);
+            m.case("submul_nx1", 64 * n, vec![au(&acc), au(&x), Arg::N(k.into())]);
+            m.case("add_nx1", 64 * n, vec![au(&acc), Arg::N(k.into())]);
+            m.case("adc_n", 64 * n, vec![au(&acc), au(&x), Arg::N(cin.into())]);
+            m.case("sbb_n", 64 * n, vec![au(&acc), au(&x), Arg::N(cin.into())]);
+            // compare: equal, differing in one limb, hostile
+            let mut z = x.clone();
+            if n > 0 && r.bool() {
+                let j = r.below(n);
+                z[j] = z[j].wrapping_add(if r.bool() { 1 } else { u64::MAX });
+            }
+            m.case("cmp", 64 * n, vec![au(&x), au(&z)]);
+            m.case("cmp", 64 * n, vec![au(&x), au(&y)]);
+            let s = r.below(64);
+            m.case("shift_left_small", 64 * n, vec![au(&acc), an(s)]);
+            m.case("shift_right_small", 64 * n, vec![au(&acc), an(s)]);
+        }
+    }
+    // every shift amount 0..64 on fixed patterns
+    for n in 0..=4usize {
+        for s in 0..64usize {
+            for pat in [vec![u64::MAX; n], vec![1; n], vec![1 << 63; n], vec![0x8000_0000_0000_0001; n]] {
+                m.case("shift_left_small", 64 * n, vec![au(&pat), an(s)]);
+                m.case("shift_right_small", 64 * n, vec![au(&pat), an(s)]);
+            }
+        }
+    }
+    // ---- single-word helpers
+    let mut r = m.stream("c15.words", 0);
+    for i in 0..m.iters(30_000) {
+        if i % 1024 == 0 && m.time_up() {
+            break;
+        }
+        let (x, y) = (word(&mut r), word(&mut r));
+        let c = match r.below(4) {
+            0 => 0u64,
+            1 | 2 => 1,
+            _ => word(&mut r),
+        };
+        m.case("adc", 64, vec![Arg::N(x.into()), Arg::N(y.into()), Arg::N(c.into())]);
+        m.case("sbb", 64, vec![Arg::N(x.into()), Arg::N(y.into()), Arg::N((c & 1).into())]);
+        m.case("carrying_add", 64, vec![Arg::N(x.into()), Arg::N(y.into()), Arg::N((c & 1).into())]);
+        m.case("borrowing_sub", 64, vec![Arg::N(x.into()), Arg::N(y.into()), Arg::N((c & 1).into())]);
+    }
+}
+
+fn main() {
+    let mut m = Mon::new("C15", dispatch);
+    m.use_hooks = true;
+    if !m.replay_if_requested() {
+        workload(&mut m);
+    }
+    m.finish();
+}
